@@ -296,7 +296,7 @@ func runCodec(tier string, seed int64, summaryPath, outPath string) {
 		// the encoded form must stay what it was when later values are encoded (it is kept in caches and stores) and a value
 		// decoded earlier must not change either
 		if prevTrxEnc != nil {
-			if got, err := transaction.Decode(prevTrxEnc); err != nil {
+			if got, err := safeTrxDecode(prevTrxEnc); err != nil {
 				viol("msgpack-encoded-form-unstable", map[string]any{"case": ci - 1, "err": err.Error()})
 			} else if f := sameSignedTrx(&prevTrx, &got); f != "" {
 				viol("msgpack-encoded-form-unstable", map[string]any{"case": ci - 1, "field": f, "what": "bytes returned by an earlier Encode decode differently after later Encode calls"})
@@ -305,7 +305,7 @@ func runCodec(tier string, seed int64, summaryPath, outPath string) {
 				viol("msgpack-decoded-value-unstable", map[string]any{"case": ci - 1, "field": f, "what": "a value decoded earlier changed after later Encode calls"})
 			}
 			if prevVtxEnc != nil {
-				if got, err := accountant.VerifDecodeVertex(prevVtxEnc); err != nil || sameSigned(&prevVtx, &got) != "" {
+				if got, err := safeVtxDecode(prevVtxEnc); err != nil || sameSigned(&prevVtx, &got) != "" {
 					viol("msgpack-encoded-form-unstable", map[string]any{"case": ci - 1, "what": "vertex bytes of an earlier encode decode differently now", "err": fmt.Sprint(err)})
 				}
 			}
@@ -394,4 +394,23 @@ func runCodec(tier string, seed int64, summaryPath, outPath string) {
 	os.WriteFile(outPath, b.Bytes(), 0644)
 	js, _ := json.MarshalIndent(sum, "", " ")
 	os.WriteFile(summaryPath, js, 0644)
+}
+
+// the decoders of bytes that the code under test may have overwritten: a panic inside the library is a decode failure
+func safeTrxDecode(b []byte) (t transaction.Transaction, err error) {
+	defer func() {
+		if r := recover(); r != nil {
+			err = fmt.Errorf("decoder panics: %v", r)
+		}
+	}()
+	return transaction.Decode(b)
+}
+
+func safeVtxDecode(b []byte) (v accountant.Vertex, err error) {
+	defer func() {
+		if r := recover(); r != nil {
+			err = fmt.Errorf("decoder panics: %v", r)
+		}
+	}()
+	return accountant.VerifDecodeVertex(b)
 }
